@@ -955,6 +955,78 @@ def pickle_oracle(spec):
     return result(ctx, ['via:pickle_' + tr['how']])
 
 
+# ---------------------------------------------------------------------------------------------- structures on mixed layouts
+# One structure (matrix-valued Corr, array, list) whose members live on different configuration lists of equal length: the
+# format stores one configuration list per structure, so the request is either refused or every member comes back on its own
+# configurations - never on another member's.
+
+@st.composite
+def mixed_case(draw, tier):
+    n = draw(st.integers(8, 20))
+    name = draw(st.sampled_from(['A|r1', 'B', 'ens|r02']))
+    a0, b0 = draw(st.integers(0, 50)), draw(st.integers(0, 50))
+    il_a = [a0 + k for k in range(n)]
+    how = draw(st.sampled_from(['stride', 'shift', 'irregular']))
+    if how == 'stride':
+        il_b = [b0 + 2 * k for k in range(n)]
+    elif how == 'shift':
+        il_b = [a0 + n // 2 + k for k in range(n)]
+    else:
+        il_b = sorted(set([a0 + 3 * k + (k * k) % 3 for k in range(n)]))
+        il_b = il_b + [il_b[-1] + 1 + j for j in range(n - len(il_b))]
+    return {'name': name, 'idl_a': il_a, 'idl_b': il_b, 'kind': draw(st.sampled_from(['corr_matrix', 'corr_matrix', 'array', 'list'])),
+            'T': draw(st.integers(1, 3)), 'seed': draw(st.integers(0, 10 ** 6)), 'how': how}
+
+
+def mixed_oracle(spec):
+    import pyerrors as pe
+    import pyerrors.input.json as pj
+    rng = np.random.RandomState(spec['seed'])
+    n = len(spec['idl_a'])
+
+    def mk(il):
+        return pe.Obs([rng.normal(1.0, 0.3, n)], [spec['name']], idl=[il])
+    if spec['kind'] == 'corr_matrix':
+        content = []
+        for t in range(spec['T']):
+            m = np.empty((2, 2), dtype=object)
+            m[0, 0], m[1, 1] = mk(spec['idl_a']), mk(spec['idl_a'])
+            m[0, 1], m[1, 0] = mk(spec['idl_b']), mk(spec['idl_b'])
+            content.append(m)
+        obj = pe.Corr(content)
+        members = [x for m in content for x in m.ravel()]
+    elif spec['kind'] == 'array':
+        arr = np.empty((2, 2), dtype=object)
+        arr[0, 0], arr[1, 1], arr[0, 1], arr[1, 0] = mk(spec['idl_a']), mk(spec['idl_a']), mk(spec['idl_b']), mk(spec['idl_b'])
+        obj = arr
+        members = list(arr.ravel())
+    else:
+        obj = [mk(spec['idl_a']), mk(spec['idl_b']), mk(spec['idl_a'])]
+        members = list(obj)
+    what = 'a %s whose members live on different configuration lists of equal length (%s)' % (spec['kind'], spec['how'])
+    try:
+        text = pj.create_json_string([obj])
+    except Exception as e:
+        return {'nt': True, 'cls': ['mixed:%s:%s:rejected:%s' % (spec['kind'], spec['how'], type(e).__name__)]}
+    back = pj.import_json_string(text, verbose=False)
+    if spec['kind'] == 'corr_matrix':
+        require(isinstance(back, pe.Corr), what + ': came back as %s' % type(back).__name__)
+        got = [x for m in back.content for x in np.asarray(m).ravel()]
+    elif spec['kind'] == 'array':
+        got = list(np.asarray(back).ravel())
+    else:
+        got = list(back)
+    require(len(got) == len(members), what + ': %d members came back for %d' % (len(got), len(members)))
+    for k, (o, r) in enumerate(zip(members, got)):
+        want = [int(c) for c in o.idl[spec['name']]]
+        have = [int(c) for c in r.idl[spec['name']]] if spec['name'] in r.idl else None
+        require(have == want, what + ' was written without an exception, but member %d comes back on configurations %r..., it was measured on %r...'
+                % (k, None if have is None else have[:5], want[:5]))
+        require(np.allclose(np.asarray(r.deltas[spec['name']]), np.asarray(o.deltas[spec['name']]), rtol=1e-12, atol=1e-14) and abs(r.value - o.value) <= 1e-14 * max(1.0, abs(o.value)),
+                what + ': member %d changed in the round trip' % k)
+    return {'nt': True, 'cls': ['mixed:%s:%s:written_faithfully' % (spec['kind'], spec['how'])]}
+
+
 SUBS = [
     Sub('json', json_case, json_oracle, {'quick': 300, 'thorough': 3000}, {'quick': 8, 'thorough': 16},
         doc='structures through string / file / Obs.dump / Corr.dump, schema validation'),
@@ -964,4 +1036,7 @@ SUBS = [
         doc='data frames through csv(.gz) and sqlite (gz on/off), schema validation of every cell'),
     Sub('pickle', pickle_case, pickle_oracle, {'quick': 250, 'thorough': 2000}, {'quick': 2, 'thorough': 4},
         doc='pickle transports, bit-identical'),
+    Sub('mixed', mixed_case, mixed_oracle, {'quick': 150, 'thorough': 1500}, {'quick': 1, 'thorough': 4},
+        doc='one structure (matrix Corr / array / list) whose members live on different configuration lists of equal length: '
+            'refused, or every member comes back on its own configurations'),
 ]
